@@ -18,6 +18,11 @@ STALE = [("@R/w/c/bindings/shared.ts", "stale shared content " * 40), ("@R/w/c/b
          ("@R/w/c/out/nested/E.ts", "old E")]
 
 
+NEAR = [("crlf", lambda t: t.replace("\n", "\r\n")), ("no final newline", lambda t: t.rstrip("\n")),
+        ("first half", lambda t: t[:len(t) // 2]), ("trailing line", lambda t: t + "// stale\n"),
+        ("identical", lambda t: t), ("cr only", lambda t: t.replace("\n", "\r")), ("blank lines doubled", lambda t: t.replace("\n\n", "\n\n\n"))]
+
+
 def exported_set(U, c):
     """set of (normalised file, ident) a history exports, computed from what TS reports"""
     cwd = c["cwd"]
@@ -54,6 +59,9 @@ def run(ctx):
     if ctx.replay:
         rp = json.load(open(ctx.replay))
         cases = [rp["case"]] if "case" in rp else rp["cases"]
+        replay_near = None
+        if rp.get("stale_variant"):
+            replay_near, cases = (0, rp["stale_variant"], cases[1]), cases[:1]
     else:
         for o in ops + ops_more:                       # every single operation x every base setting x stale/empty
             for env, _ in ENVS:
@@ -110,6 +118,29 @@ def run(ctx):
             for p, ident in exported_set(U, placed[k]):
                 if ("export type %s" % ident) not in files.get(p, ""):
                     viol.append(dict(cases=[cases[k]], lost=[p, ident], trees=[real[k][1]]))
+    # stale content that is ALMOST what the export writes (the previous run's files with other line
+    # terminators, without the final newline, truncated, with a trailing line): it must not leak either
+    near = []
+    if ctx.replay and replay_near:
+        near = [replay_near]
+    elif not ctx.replay:
+        base = [k for k, (c, r) in enumerate(zip(cases, real)) if not c["init"] and set(r[0]) <= {"O"} and r[1]]
+        rng.shuffle(base)
+        for k in base[:120 if ctx.quick else 1200]:
+            for name, fn in rng.sample(NEAR, 2):
+                init = [("@R/" + p, fn(t)) for p, t in real[k][1]]
+                near.append((k, name, dict(cases[k], init=init)))
+    if near:
+        placed2 = sm.place([c for _, _, c in near])
+        real2 = sm.run_real(exe, placed2)
+        nsus2, breaks2 = sm.correspond(U, placed2, real2, "C06n")
+        nsus += nsus2
+        breaks += breaks2
+        for (k, name, c2), r2 in zip(near, real2):
+            if set(r2[0]) <= {"O"} and tuple(r2[1]) != tuple(real[k][1]):
+                viol.append(dict(cases=[cases[k], c2], trees=[real[k][1], r2[1]], stale_variant=name))
+            elif not set(r2[0]) <= {"O"}:
+                viol.append(dict(cases=[cases[k], c2], results=[real[k][0], r2[0]], stale_variant=name))
     for v in viol[:1]:
         ctx.fail("final tree depends on order / entry point / spelling, or a declaration was lost",
                  dict(kind="property-violated", note="%d violations" % len(viol), **v))
@@ -120,9 +151,9 @@ def run(ctx):
     sm.cleanup()
     ctx.finish_proof()
     ctx.coverage.update({
-        "evaluations": len(cases),
+        "evaluations": len(cases) + len(near),
         "distinct_nontrivial": len({json.dumps(c["ops"]) for c in cases if len(c["ops"]) >= 2}),
-        "rule": "histories over {export, export_all, export_all_to x %d spellings} x %d types (shared file A/B/U2, cycle C<->D, generic G with two instantiations, `../` escape E, same file name in two directories C/C2) x %d TS_RS_EXPORT_DIR settings x {empty, stale} initial tree: every single operation in every setting, every ordered pair, %s random histories of length 3..%d, and permutations of the same set through different entry points/spellings; run on a real directory by 16 worker processes; non-trivial = at least two operations" % (
+        "rule": "histories over {export, export_all, export_all_to x %d spellings} x %d types (shared file A/B/U2, cycle C<->D, generic G with two instantiations, `../` escape E, same file name in two directories C/C2) x %d TS_RS_EXPORT_DIR settings x {empty, stale, near-miss stale = the previous run's own files with other line terminators / truncated / extended} initial tree: every single operation in every setting, every ordered pair, %s random histories of length 3..%d, and permutations of the same set through different entry points/spellings; run on a real directory by 16 worker processes; non-trivial = at least two operations" % (
             len(SPELLINGS), len(TYPES), len(ENVS), "600" if ctx.quick else "6000", 4 if ctx.quick else 6),
         "samples": [dict(case=cases[k], results=real[k][0], files=[p for p, _ in real[k][1]]) for k in (len(cases) // 2, len(cases) - 3)],
         "correspondence": {"histories": len(cases), "suspects": nsus, "confirmed_breaks": len(breaks)},
